@@ -79,6 +79,15 @@ func runOne(t *testing.T, sc *Scenario, seed uint64, replay []int, wantTrace boo
 		synctest.Test(t, func(t *testing.T) {
 			verifSetDet(true, seed^0x5bd1e995c3a7f11d)
 			defer verifSetDet(false, 0)
+			// swarm: in three quarters of the runs the goroutines of one node are also
+			// interleaved between blocking points, at the inserted yield points
+			every := []uint64{0, 400, 40, 6}[ch.Intn(4)]
+			if os.Getenv("VERIF_NOYIELD") != "" {
+				every = 0
+			}
+			SetAutoYieldRate(seed, every)
+			defer SetAutoYieldRate(0, 0)
+			inKernel = true
 			k = NewK(ch)
 			k.W.LogObs = true
 			defer UninstallHooks()
@@ -117,6 +126,10 @@ func runOne(t *testing.T, sc *Scenario, seed uint64, replay []int, wantTrace boo
 		res.Stats = k.W.Stats
 		res.Steps = k.W.step
 		res.Notes = k.Notes
+		if res.Stats != nil && autoYieldCount > 0 {
+			res.Stats["seeded-goroutine-yields"] += int(autoYieldCount)
+			res.Stats["runs-with-seeded-yields"]++
+		}
 		res.NChoices = len(ch.Rec)
 		if res.Violation != nil || wantTrace {
 			res.Choices = ch.Rec
@@ -137,7 +150,7 @@ func teardown(k *K) {
 	k.Invariant = nil
 	w := k.W
 	for round := 0; round < 6; round++ {
-		synctest.Wait()
+		kernelBlock(synctest.Wait)
 		w.mu.Lock()
 		var incs []*Inc
 		for _, n := range w.Nodes {
@@ -171,7 +184,7 @@ func teardown(k *K) {
 			f()
 		}
 		k.cleanups = nil
-		time.Sleep(70 * time.Second)
+		kernelSleep(70 * time.Second)
 	}
 }
 
@@ -278,6 +291,7 @@ func TestWorker(t *testing.T) {
 		kick()
 		emit(runOne(t, sc, seed, nil, wantTrace || (i == 0 && os.Getenv("VERIF_SAMPLE") != "")))
 		runtime.GC()
+		runtime.GC() // twice: sync.Pool contents survive one collection in the victim cache
 	}
 }
 
@@ -293,6 +307,7 @@ func warmup(t *testing.T, sc *Scenario) {
 		warmupBegin()
 	}
 	runOne(t, sc, 0xfeedface, nil, false)
+	runtime.GC()
 	runtime.GC()
 }
 
